@@ -37,6 +37,9 @@ def run(tier, seed):
                 ('e', 'foreignObject', {}, [('e', 'p', {'title': 'X'}, [('t', 'in svg')])])]))
             if rnd.random() < 0.5:
                 body.append(('e', 'math', {'display': 'block'}, [('e', 'mi', {'mathvariant': 'bold'}, [('t', 'x')])]))
+        # siblings whose names differ only in ASCII case: one element type in HTML, three in XML (also for the -of-type counts)
+        body.append(('e', 'ul', {}, [('e', nm_, {'class': 'c%d' % i_}, []) for i_, nm_ in
+                                     enumerate(rnd.sample(['Item', 'item', 'ITEM', 'item', 'Item', 'other'], rnd.randint(3, 6)))]))
         # mixed-case names and a type attribute, so that case rules are observable
         ab = ('e', 'html', {}, [('e', 'head', {}, []), ('e', 'body', {}, body)])
         mk_html = gen_trees.to_markup(ab)
@@ -63,6 +66,12 @@ def run(tier, seed):
                 k_ = rnd.choice(ks)
                 a_ = [[{'ids': [], 'classes': [], 'attrs': [(None, rnd.choice([k_.upper(), k_.title()]), None, '', None)], 'pseudos': []}]]
                 sels.append((gen_selectors.show_list(a_), a_))
+        for _ in range(3):
+            a_ = [[{'ids': [], 'classes': [], 'attrs': [], 'type': rnd.choice([(None, 'item'), (None, 'ITEM'), (None, 'Item'), None]),
+                    'pseudos': [('nth', rnd.choice(['nth-of-type', 'nth-last-of-type']), rnd.choice([0, 0, 1, 2]), rnd.choice([1, 1, 2]), None)]}]]
+            if a_[0][0]['type'] is None:
+                del a_[0][0]['type']
+            sels.append((gen_selectors.show_list(a_), a_))
         # the type attribute's value, spelled in another case, with and without a namespace prefix and the i / s flags
         typed = [e for e in tops[0][0].find_all(True) if isinstance(e.attrs.get('type'), str) and e.attrs['type']]
         for _ in range(3):
